@@ -149,13 +149,12 @@ def snarfScale (spec : List Char) : Nat :=
     if chr spec 5 = '.' then
       if chr spec 6 = 'D' then 10
       else if chr spec 6 = 'I' then
-        let kp := 7
-        -- `r += ((*kp == 'V' || *kp++ == 'I') * 2U)`, twice
-        let (r, kp) := if chr spec kp = 'V' then (1 + 2, kp) else (if chr spec kp = 'I' then 1 + 2 else 1, kp + 1)
-        let (r, kp) := if chr spec kp = 'V' then (r + 2, kp) else (if chr spec kp = 'I' then r + 2 else r, kp + 1)
-        let r := r + (if chr spec kp = 'C' then 1 else 0)
-        let r := r + (if chr spec kp = 'V' then 2 else 0)
-        r + (if chr spec (kp + 1) = 'C' then 1 else 0)
+        -- I, II, III or IV (`typ` 0..3), then A or C
+        let (typ, kp) : Nat × Nat :=
+          if chr spec 7 = 'V' then (3, 8)
+          else if chr spec 7 = 'I' then (if chr spec 8 = 'I' then (2, 9) else (1, 8))
+          else (0, 7)
+        1 + 2 * typ + (if chr spec kp = 'C' then 1 else 0)
       else 9
     else 9
   else 0
